@@ -38,6 +38,22 @@ pub fn dur_lattice_for(t: NaiveTime, rng: &mut Rng, extra: usize) -> Vec<i128> {
     v
 }
 
+/// A constructor call through both public routes: the `_opt` form and the deprecated panicking form (whose documented panic is the
+/// same outcome as `None`); both judged by the same action of TimeOfDay.tla.
+#[allow(deprecated)]
+fn hmsn_events(h: u32, m: u32, s: u32, sub: u32, unit: u32) -> Vec<Value> {
+    let args = |route: &str| json!({"h": big(h as i128), "m": big(m as i128), "s": big(s as i128), "sub": big(sub as i128), "unit": unit, "route": route});
+    let mut v = vec![
+        ev("t.hmsn", args("opt"), || json!({"r": ot(match unit { 1 => NaiveTime::from_hms_nano_opt(h, m, s, sub), 1_000 => NaiveTime::from_hms_micro_opt(h, m, s, sub), _ => NaiveTime::from_hms_milli_opt(h, m, s, sub) })})),
+        ev("t.hmsn", args("panicking"), || json!({"r": ot(crate::guard(|| match unit { 1 => NaiveTime::from_hms_nano(h, m, s, sub), 1_000 => NaiveTime::from_hms_micro(h, m, s, sub), _ => NaiveTime::from_hms_milli(h, m, s, sub) }).ok())})),
+    ];
+    if sub == 0 {
+        v.push(ev("t.hmsn", args("from_hms_opt"), || json!({"r": ot(NaiveTime::from_hms_opt(h, m, s))})));
+        v.push(ev("t.hmsn", args("from_hms"), || json!({"r": ot(crate::guard(|| NaiveTime::from_hms(h, m, s)).ok())})));
+    }
+    v
+}
+
 pub fn run(ctx: &Ctx) -> Value {
     let mut tw = Tw::new(&ctx.out, "Trace_TimeOfDay", ctx.t(3_000, 20_000));
     let mut rng = Rng::new(ctx.seed ^ 0x07);
@@ -51,9 +67,7 @@ pub fn run(ctx: &Ctx) -> Value {
                              (1_000, vec![0, 999_999, 1_000_000, 1_999_999, 2_000_000, 4_294_967, 4_294_968, u32::MAX]),
                              (1_000_000, vec![0, 999, 1_000, 1_999, 2_000, 4_294, 4_295, u32::MAX])] {
             for sub in subs {
-                tw.emit(ev("t.hmsn", json!({"h": big(h as i128), "m": big(m as i128), "s": big(s as i128), "sub": big(sub as i128), "unit": unit}), || {
-                    json!({"r": ot(match unit { 1 => NaiveTime::from_hms_nano_opt(h, m, s, sub), 1_000 => NaiveTime::from_hms_micro_opt(h, m, s, sub), _ => NaiveTime::from_hms_milli_opt(h, m, s, sub) })})
-                }));
+                for e in hmsn_events(h, m, s, sub, unit) { tw.emit(e); }
                 n_ctor += 1;
             }
         }
@@ -71,12 +85,14 @@ pub fn run(ctx: &Ctx) -> Value {
     for secs in [0u32, 58, 59, 60, 119, 86_339, 86_398, 86_399, 86_400, 86_401, 1 << 31, u32::MAX] {
         for n in [0u32, 1, 999_999_999, 1_000_000_000, 1_999_999_999, 2_000_000_000, u32::MAX] {
             tw.emit(ev("t.nsfm", json!({"secs": big(secs as i128), "n": big(n as i128)}), || json!({"r": ot(NaiveTime::from_num_seconds_from_midnight_opt(secs, n))})));
-            n_ctor += 1;
+            #[allow(deprecated)]
+            tw.emit(ev("t.nsfm", json!({"secs": big(secs as i128), "n": big(n as i128), "route": "panicking"}), || json!({"r": ot(crate::guard(|| NaiveTime::from_num_seconds_from_midnight(secs, n)).ok())})));
+            n_ctor += 2;
         }
     }
     for _ in 0..ctx.t(500, 50_000) {
         let (h, m, s, n) = (rng.range(0, 26) as u32, rng.range(0, 62) as u32, rng.range(0, 62) as u32, rng.range(0, 2_100_000_000) as u32);
-        tw.emit(ev("t.hmsn", json!({"h": big(h as i128), "m": big(m as i128), "s": big(s as i128), "sub": big(n as i128), "unit": 1}), || json!({"r": ot(NaiveTime::from_hms_nano_opt(h, m, s, n))})));
+        for e in hmsn_events(h, m, s, n, 1) { tw.emit(e); }
     }
     // accessors, field replacement, arithmetic
     let times = time_lattice(&mut rng, ctx.t(6, 60));
